@@ -390,8 +390,8 @@ def shard(args):
 
 
 def run(ctx):
-    n = 5 if ctx.tier == 'quick' else 600
-    shards = [{'shard': i, 'n': n, 'rounds': 1 if ctx.tier == 'quick' else 4}
+    n = 5 if ctx.tier == 'quick' else 50
+    shards = [{'shard': i, 'n': n, 'rounds': 1 if ctx.tier == 'quick' else 3}
               for i in range(common.NCPU)]
     results = common.run_shards('checks.c15', shards, timeout=3400)
     common.merge_shards(ctx, results)
